@@ -67,7 +67,9 @@ func (r *Row) Add(c Cell) *Row {
 	ptr := &r.cells[column-1]
 	ptr.inRow = r
 	ptr.columnNum = column
-	invokePropertyCallbacks(r.rowCellCallbacks, CB_AT_ADD, ptr, r.ErrorContainer)
+	// the row itself is the error receiver: it creates its container on
+	// demand, where a bare r.ErrorContainer may still be nil and drop errors
+	invokePropertyCallbacks(r.rowCellCallbacks, CB_AT_ADD, ptr, r)
 	if t := r.inTable; t != nil {
 		// the row is already part of a table: keep the table's column
 		// bookkeeping and add-time callbacks in step with the new cell
